@@ -14,6 +14,5 @@ NOT_APPLICABLE = {
     'C13': 'one FxHashMap::get makes update_keys intractable for CBMC even with a concrete key; the filter closure mutates a captured counter (Verus rejects)',
     'C15': 'file I/O, a thread, and "behaves like a fresh instance" (relational)',
     'C16': 'a relation between two configurations through the whole 4000-line parser',
-    'C18': 'hash containers mutated inside Kanata methods; toggle alternation is a cross-call history',
     'C20': 'net-text invariant over a history of zch_press_key calls sharing eight counters behind a global mutex',
 }
